@@ -1370,6 +1370,17 @@ def _resolve_tuple_subscripts(fn) -> bool:
     return changed
 
 
+def _is_plain_target(t) -> bool:
+    """a local name, or an attribute of a local name chain (`self._x`)"""
+    if isinstance(t, ast.Name):
+        return True
+    while isinstance(t, ast.Attribute):
+        t = t.value
+        if isinstance(t, ast.Name):
+            return True
+    return False
+
+
 def _split_parallel_assignments(fn) -> bool:
     """`a, b = x, y` is `a = x; b = y` when no right-hand side reads a target assigned before it (binding a local name has no effect
     of its own, so evaluating x, binding a, evaluating y, binding b is the same as evaluating x, y and binding both)"""
@@ -1383,15 +1394,24 @@ def _split_parallel_assignments(fn) -> bool:
             while i < len(blk):
                 st = blk[i]
                 if isinstance(st, ast.Assign) and len(st.targets) == 1 and isinstance(st.targets[0], ast.Tuple) and isinstance(st.value, ast.Tuple) \
-                        and len(st.targets[0].elts) == len(st.value.elts) and all(isinstance(t, ast.Name) for t in st.targets[0].elts) \
+                        and len(st.targets[0].elts) == len(st.value.elts) and all(_is_plain_target(t) for t in st.targets[0].elts) \
                         and not any(isinstance(x, (ast.Starred, ast.NamedExpr)) for v in st.value.elts for x in ast.walk(v)):
-                    tn = {t.id for t in st.targets[0].elts}
-                    tl = [t.id for t in st.targets[0].elts]
+                    tl = [ast.unparse(t) for t in st.targets[0].elts]
                     # sequential assignment gives the same result if no later right-hand side reads an earlier target
-                    # (`a, b = a, e` with e not mentioning a is fine: `a = a` changes nothing)
-                    if len(set(tl)) == len(tl) and not any(isinstance(x, ast.Name) and x.id in tl[:j] for j, v in enumerate(st.value.elts) for x in ast.walk(v)):
+                    # (`a, b = a, e` with e not mentioning a is fine: `a = a` changes nothing); after an attribute target the later
+                    # right-hand sides must also be call-free (a call could read the attribute through another name)
+
+                    def _reads_earlier(j, v):
+                        for x in ast.walk(v):
+                            if isinstance(x, (ast.Name, ast.Attribute)) and ast.unparse(x) in tl[:j]:
+                                return True
+                            if isinstance(x, (ast.Call, ast.Await)) and any("." in t for t in tl[:j]):
+                                return True
+                        return False
+
+                    if len(set(tl)) == len(tl) and not any(_reads_earlier(j, v) for j, v in enumerate(st.value.elts)):
                         parts = [ast.copy_location(ast.Assign(targets=[t], value=v), st) for t, v in zip(st.targets[0].elts, st.value.elts)
-                                 if not (isinstance(v, ast.Name) and v.id == t.id)]        # `a = a` is dropped
+                                 if not (isinstance(v, ast.Name) and isinstance(t, ast.Name) and v.id == t.id)]        # `a = a` is dropped
                         parts = parts or [ast.copy_location(ast.Pass(), st)]
                         blk[i:i + 1] = parts
                         for x in parts:
